@@ -253,11 +253,15 @@ structure World (α : Type) where
   heap : Array (Array α) := #[]
   gpsis : Array (Array α) := #[]
 
-/-- What the caller passes as `x`: a float ndarray (by reference: `np.asarray(x, float)` is the
-same object) or anything else (a list, an int array: `np.asarray` makes a new array). -/
+/-- What the caller passes as `x`: a float64 ndarray (by reference: `np.asarray(x, float)` is the
+same object), an ndarray of another dtype (integer, float32, bool: `np.asarray(x, float)` makes a new
+float array with the same values; `f` called directly reads it element by element, converting), or any
+other sequence (a list, a tuple: `np.asarray` makes a new array).  The heap stores the *values* of an
+array; the kernels allocate their result with `np.ones(x.size)`, a float array whatever `x.dtype` is. -/
 inductive Arg (α : Type) where
   | nd (id : Nat)
   | seq (vals : Array α)
+  | ndOther (id : Nat)
 
 def World.alloc (w : World α) (a : Array α) : World α × Nat :=
   ({ w with heap := w.heap.push a }, w.heap.size)
@@ -282,6 +286,9 @@ def World.call (w : World α) (kind : Kind) (tb : Tables α) (inter : Nat → Na
   | .seq v =>
     let (w1, id) := w.alloc v
     w1.fForm kind tb inter id T
+  | .ndOther xid =>
+    let (w1, id) := w.alloc (w.read xid)
+    w1.fForm kind tb inter id T
 
 /-! ### The `ideal` decorator and the ideal models -/
 
@@ -302,6 +309,7 @@ def World.callIdeal (w : World α) (arg : Arg α) (T : α) : World α × Nat :=
   match arg with
   | .nd id => w.alloc (idealGammaCall (w.read id) T)
   | .seq v => w.alloc (idealGammaCall v T)
+  | .ndOther id => w.alloc (idealGammaCall (w.read id) T)
 
 end
 
